@@ -104,7 +104,7 @@ def n_fds():
 def eval_history(state, arg):
     stream, sub, fixed_ops = arg
     rng = random.Random(sub)
-    pkg = docgen.gen_package(random.Random(sub), docgen.Knobs(max_blocks=3, max_runs=3))
+    pkg = docgen.gen_package(random.Random(sub), docgen.Knobs(max_blocks=3, max_runs=4, links=0.45, link_mixed_format=0.5, shared_part=0.0))
     data = pkg.to_bytes()
     html = rng.random() < 0.4
     dup = rng.random() < 0.7
@@ -142,6 +142,24 @@ def eval_history(state, arg):
             finally:
                 ref.close()
             src_path = os.path.join(tmp, "in.docx")
+            if kind != "bytesio" and rng.random() < 0.5:
+                # another document was extracted from this very path earlier in the process:
+                # extraction is a function of the archive BYTES, not of the file name
+                other = docgen.gen_package(random.Random(sub + 1), docgen.Knobs(max_blocks=3, max_runs=4, links=0.6, link_mixed_format=0.5)).to_bytes()
+                open(src_path, "wb").write(other)
+                try:
+                    prev = docx2python(src_path, html=html, duplicate_merged_cells=dup)
+                    try:
+                        for a in ATTRS:
+                            try:
+                                getattr(prev, attr_name(a))
+                            except Exception:  # noqa: BLE001
+                                pass
+                    finally:
+                        prev.close()
+                except Exception:  # noqa: BLE001
+                    pass
+                res["features"].append("path_reused")
             open(src_path, "wb").write(data)
             buf = io.BytesIO(data)
             src = {"str": src_path, "path": Path(src_path), "bytesio": buf}[kind]
